@@ -20,11 +20,11 @@ RW_GUARDS = {'tulz::rwp::ReadLock': 'R', 'tulz::rwp::WriteLock': 'W'}
 
 
 class Ev:
-    __slots__ = ('kind', 'name', 'obj', 'val', 'args', 'node', 'locks', 'depth', 'fn', 'tag')
+    __slots__ = ('kind', 'name', 'obj', 'val', 'args', 'node', 'locks', 'depth', 'fn', 'tag', 'argobjs')
 
     def __init__(self, kind, node=None, name='', obj=None, val=None, args=None):
         self.kind = kind; self.node = node; self.name = name; self.obj = obj; self.val = val; self.args = args or []
-        self.locks = frozenset(); self.depth = 0; self.fn = ''; self.tag = None
+        self.locks = frozenset(); self.depth = 0; self.fn = ''; self.tag = None; self.argobjs = []
 
     def __repr__(self):
         return f"<{self.kind} {self.name or ''} obj={self.obj} val={self.val} locks={sorted(self.locks)} @{self.node.shortloc() if self.node is not None else ''}>"
@@ -167,6 +167,11 @@ class EvDomain(Domain):
             self.ev(st, Ev('mutex.' + base, n, name=q, obj=on), fr); return None
         if q.startswith('std::function') and n.op == '()':
             self.ev(st, Ev('opaque', n, name=q, obj=on, args=vals), fr); return Sym('cb-result')
+        if q == 'std::invoke' and args:
+            if isinstance(vals[0], Closure): return Sym('cb-result')        # body already run (sync_closures)
+            e = self.ev(st, Ev('opaque', n, name=q, obj=self.resolve_obj(ex, args[0], st, fr), val=vals[0], args=vals[1:]), fr)
+            e.argobjs = [args[0]]
+            return Sym('cb-result')
         if n.n('calleeexpr') is not None or (n.ck == 'op' and n.op == '()' and (not n.callee_in_root or (n.callee_def or '').startswith('witness/'))):
             cal = n.n('calleeexpr') if n.n('calleeexpr') is not None else obj
             on2 = self.resolve_obj(ex, cal, st, fr) if cal is not None else None
@@ -184,6 +189,7 @@ class EvDomain(Domain):
         if obj is not None:
             ov = ex._value(obj, st, fr)
         e = self.ev(st, Ev('call', n, name=q, obj=on, val=ov, args=vals), fr)
+        e.argobjs = [self.resolve_obj(ex, a, st, fr) if a is not None else None for a in args]
         r = self.call_result(ex, n, q, base, on, ov, vals, st, fr)
         return r
 
@@ -202,6 +208,20 @@ class EvDomain(Domain):
                 v = fr.vals.get(a.id)
                 if isinstance(v, Closure) and v.fn is not None: out.append((v, []))
             return out
+        if strip_targs(q) == 'std::invoke':
+            args = [a for a in n.ns('args') if a is not None]
+            v0 = ex._rvalue(args[0], st, fr) if args else None
+            if isinstance(v0, Closure) and v0.fn is not None:
+                return [(v0, [ex._value(a, st, fr) for a in args[1:]])]
+        if strip_targs(q) in ('std::for_each', 'std::ranges::for_each'):
+            # the callable is applied to every element of [first, last): one representative invocation on `X.front`
+            args = [a for a in n.ns('args') if a is not None]
+            v0 = fr.vals.get(args[0].id) if args else None
+            clo = next((fr.vals.get(a.id) for a in args if isinstance(fr.vals.get(a.id), Closure)), None)
+            if isinstance(v0, Sym) and v0.name.endswith('.begin') and clo is not None and clo.fn is not None:
+                X = v0.name[:-6]
+                self.ev(st, Ev('foreach', n, name=q, obj=X, val=clo), fr)
+                return [(clo, [Sym(X + '.front')])]
         return []
 
     def after_closure(self, ex, n, clo, ret, st):
@@ -274,6 +294,7 @@ def _flatten(path):
         elif k == 'decl':
             name, val = payload
             decls[name] = (val, node)
+            d1 = Ev('decl', node, obj=name, val=val); d1.locks = frozenset(cur); out.append(d1)
             if last_guard_ev is not None and node is not None:
                 # `std::scoped_lock locker(m)` : remember which variable guards which mutex
                 for v in node.vars:
@@ -281,6 +302,8 @@ def _flatten(path):
                         held[v['decl']] = last_guard_ev.obj; held[name] = last_guard_ev.obj
                         last_guard_ev = None
             continue
+        elif k == 'moved-from':
+            released.add(payload); continue
         elif k == 'autodtor':
             name, decl, ty = payload
             if decl in held:
@@ -317,3 +340,33 @@ def run_paths(facts, fn, domain, args=None, this_path=('this',)):
     ex = Exec(facts, domain)
     paths = ex.run(fn, args=args, this_path=this_path)
     return [(p, _flatten(p)) for p in paths]
+
+
+CONTAINER_TESTS = ('empty', 'end', 'cend', 'begin', 'cbegin', 'size')
+
+
+def loop_conds(facts, fn_names):
+    """node ids of the conditions of every loop in the named functions (and the lambdas inside them)"""
+    out = set()
+    for f in facts.fns:
+        if f.name not in fn_names and f.gname not in fn_names: continue
+        for n in f.nodes():
+            if n.k in ('while', 'for', 'do', 'rangefor') and n.n('c') is not None: out.add(n.n('c').id)
+    return out
+
+
+def loop_visits(E, conds):
+    """[(index in E, container name)] for every loop iteration entered on this path: a `branch` event with value True on a loop
+    condition; the container is the object of the nearest preceding emptiness / begin / end / size call (None if there is none)"""
+    out = []; last = {}
+    for i, e in enumerate(E):
+        if e.kind != 'branch' or e.val is not True or e.node is None or e.node.id not in conds: continue
+        cont = None
+        for x in reversed(E[max(0, i - 8):i]):
+            if x.kind == 'branch': break
+            if x.kind == 'call' and x.obj is not None and x.name.split('::')[-1] in CONTAINER_TESTS:
+                cont = x.obj; break
+        if cont is None: cont = last.get(e.node.id)       # range-for: begin()/end() are evaluated once, before the first test
+        last[e.node.id] = cont
+        out.append((i, cont))
+    return out
